@@ -4,6 +4,7 @@ the implementation, compared inside Coq with the model's MRO (pairwise order pro
 CPython."""
 import itertools, json, os, random
 import vlib, pydiff
+import forms_c16
 
 THEOREMS = ["C16_linearization", "C16_reject", "C16_lookup"]
 
@@ -159,6 +160,12 @@ def check(res):
             if got != exp:
                 mism.append((dict(defs=d, **case), got, exp)); break
         items.append((d, True if acc is None else acc, qs))
+    # class statement / lookup / binding forms beyond the DAG programs
+    fa = pydiff.run_impl(forms_c16.FORMS); fb = pydiff.run_ref(forms_c16.FORMS)
+    for f, x, y in zip(forms_c16.FORMS, fa, fb):
+        nlines += 1; dist["form"] = dist.get("form", 0) + 1
+        gx = "<GO PANIC %s>" % (x.get("panic") or x.get("crash")) if (x.get("panic") or x.get("crash")) else (x.get("out", ""), x.get("err", ""))
+        if gx != (y.get("out", ""), y.get("err", "")): mism.append((dict(kind="form", source=f), str(gx)[:300], str((y.get("out", ""), y.get("err", "")))[:300]))
     tie_bad = []; tie_err = None
     if "Model/Mro.vo" in built:
         shards = [items[i::8] for i in range(8)]
@@ -172,7 +179,7 @@ def check(res):
     res.oblige("correspondence: MRO order and acceptance of the model = implementation on %d class DAGs (vm_compute)" % len(items),
                tie_err is None and not tie_bad, tie_err or str([t[0] for t in tie_bad[:3]]))
     res.coverage.update(evaluations=nlines, distinct_nontrivial=nontrivial, programs=len(progs),
-        rule="all class DAGs with <= 4 classes and <= 3 ordered bases each (only the last class may be inconsistent), seeded samples with 5 and 6 classes; every pair of classes defines a probe attribute so that each lookup reveals the relative MRO order; plus binding of functions/classmethods/staticmethods through classes and instances, isinstance, and locality of writes/deletes; non-trivial = a DAG with multiple inheritance; distinct by DAG",
+        rule="all class DAGs with <= 4 classes and <= 3 ordered bases each (only the last class may be inconsistent), seeded samples with 5 and 6 classes; every pair of classes defines a probe attribute so that each lookup reveals the relative MRO order; plus binding of functions/classmethods/staticmethods through classes and instances, isinstance, and locality of writes/deletes; %d fixed forms (special methods inherited along the MRO, functions stored on instances, late class attributes, bound methods kept across rebinding, __getattr__ fallback, explicit base-class calls); non-trivial = a DAG with multiple inheritance; distinct by DAG" % len(forms_c16.FORMS),
         samples=[dict(defs=dags[len(dags) // 2], first_lines=impl[len(dags) // 2].get("out", "").splitlines()[:4])],
         distribution=dict(dags=len(dags), lines_by_kind=dist), oracle_disagreements=len(mism),
         modelled_not_verified=["descriptor binding", "isinstance", "__getattr__/__getattribute__ hooks", "metaclasses"])
